@@ -335,6 +335,15 @@ def replay(payload):
             model[5] = float(1000 + n)
             n += 1
             check(ts, model, 'create session, after sync + add')
+            # a lookup, an addition, an explicit sync, and straight away a lookup of the identifier just added
+            ts.add(_mk(n, fid=7))
+            model[7] = float(1000 + n)
+            n += 1
+            ts.sync()
+            t = ts.get_flight(7)
+            if t is None or t.starting_mass != model[7]:
+                problems.append('create session: add, sync, then get_flight of the identifier just added -> ' + ('nothing' if t is None else 'another trajectory'))
+            check(ts, model, 'create session, after add + sync')
         with TrajectoryStore.append(base_file=path) as ts:
             ts.add(_mk(n, fid=25))
             model[25] = float(1000 + n)
